@@ -6,7 +6,7 @@ listed in the evidence (`lib_contracts_used`, `lib_pure_uf`).
 import ast
 import z3
 
-from .values import (V, NONE, Unsupported, PyRaise, ExcVal, Obj, Seq, SymMap, SliceVal, RangeVal,
+from .values import (SDict, V, NONE, Unsupported, PyRaise, ExcVal, Obj, Seq, SymMap, SliceVal, RangeVal,
                      Cx, Opaque, is_z3, is_int, is_real, is_bool, is_v, is_num, to_z3, to_real,
                      to_int, concrete_int, concrete_bool, ite, veq, uf, fresh_bool, fresh_int,
                      fresh_v, fresh_real, real_const, to_cx, keq, round_half_even, trunc, NpScalar)
@@ -170,14 +170,19 @@ def getitem(ip, o, idx):
             return getitem(ip, o, idx[0])
         raise PyRaise(ExcVal('TypeError', ('bad index type',)))
     if isinstance(o, dict):
+        sym = getattr(o, 'sym', None)
         if isinstance(idx, (str, int, bool, tuple)) or idx is None:
             if idx in o:
                 return o[idx]
+            if sym is not None and not isinstance(idx, str) and ip.decide(sym.has(idx), 'dictkey-sym'):
+                return sym.get(idx)
             raise PyRaise(ExcVal('KeyError', (idx,)))
         # symbolic key into a concrete dict
         for k, v in o.items():
             if not isinstance(k, str) and ip.decide(keq(idx, k), 'dictkey'):
                 return v
+        if sym is not None and ip.decide(sym.has(idx), 'dictkey-sym'):
+            return sym.get(idx)
         raise PyRaise(ExcVal('KeyError', (idx,)))
     if isinstance(o, SymMap):
         if not ip.decide(o.has(idx), 'mapkey'):
@@ -316,8 +321,19 @@ def setitem(ip, o, idx, v):
         return
     if isinstance(o, dict):
         if is_z3(idx):
-            raise Unsupported('symbolic key store into concrete dict')
+            if not isinstance(o, SDict):
+                raise Unsupported('symbolic key store into concrete dict')
+            for k in list(o.keys()):
+                if not isinstance(k, str):
+                    o[k] = ite(keq(idx, k), v, o[k])
+            if o.sym is None:
+                o.sym = SymMap()
+            o.sym.set(idx, v)
+            return
         o[idx] = v
+        sym = getattr(o, 'sym', None)
+        if sym is not None and not isinstance(idx, str):
+            sym.set(idx, v)
         return
     if isinstance(o, SymMap):
         o.set(idx, v)
@@ -645,9 +661,14 @@ def contains(ip, container, x):
     if isinstance(container, KeysView):
         container = container.m
     if isinstance(container, dict):
+        sym = getattr(container, 'sym', None)
         if not is_z3(x):
-            return x in container
+            if x in container or sym is None or isinstance(x, str):
+                return x in container
+            return sym.has(x)
         parts = [keq(x, k) for k in container.keys() if not isinstance(k, str)]
+        if sym is not None:
+            parts.append(sym.has(x))
         return z3.Or(parts) if parts else False
     if isinstance(container, SymMap):
         return container.has(x)
@@ -877,11 +898,39 @@ def getattr_(ip, o, attr):
         if attr == 'items':
             return I.Builtin('dict.items', lambda ip_, a, k: [(kk, vv) for kk, vv in o.items()])
         if attr == 'get':
-            return I.Builtin('dict.get', lambda ip_, a, k: o.get(a[0], a[1] if len(a) > 1 else None))
+            def dget(ip_, a, k):
+                default = a[1] if len(a) > 1 else None
+                try:
+                    return getitem(ip_, o, a[0])
+                except PyRaise as pr:
+                    if pr.exc.typ == 'KeyError':
+                        return default
+                    raise
+            return I.Builtin('dict.get', dget)
+        if attr == 'clear':
+            def clear(ip_, a, k):
+                ip_.note_mutation(o)
+                dict.clear(o)
+                if isinstance(o, SDict):
+                    o.sym = None
+            return I.Builtin('dict.clear', clear)
+        if attr == 'pop':
+            def pop(ip_, a, k):
+                ip_.note_mutation(o)
+                if is_z3(a[0]):
+                    raise Unsupported('dict.pop with symbolic key')
+                return dict.pop(o, a[0], *a[1:]) if (a[0] in o or len(a) > 1) else ip_.raise_('KeyError')
+            return I.Builtin('dict.pop', pop)
         raise Unsupported('dict.%s' % attr)
     if isinstance(o, SymMap):
         if attr == 'keys':
             return I.Builtin('dict.keys', lambda ip_, a, k: KeysView(o))
+        if attr == 'get':
+            def sget(ip_, a, k):
+                if ip_.decide(o.has(a[0]), 'mapkey'):
+                    return o.get(a[0])
+                return a[1] if len(a) > 1 else None
+            return I.Builtin('dict.get', sget)
         raise Unsupported('symbolic dict.%s' % attr)
     if isinstance(o, Cx):
         if attr == 'real':
@@ -1035,7 +1084,7 @@ def call_type(ip, name, args, kw):
             return s.copy('tuple')
         raise Unsupported('tuple(%r)' % (v,))
     if name == 'dict':
-        return dict(kw) if not args else dict(args[0])
+        return SDict(kw) if not args else SDict(args[0])
     if name == 'str':
         return '<str>'
     if name == 'slice':
@@ -1416,12 +1465,25 @@ def np_allclose(ip, args, kw):
     raise Unsupported('np.allclose on %r' % (a,))
 
 
+def np_isclose(ip, args, kw):
+    """ASSUMED contract of np.isclose(a, b, rtol=1e-5, atol=1e-8): |a - b| <= atol + rtol |b|"""
+    a, b = to_real(args[0]), to_real(args[1])
+    rtol = to_real(kw.get('rtol', args[2] if len(args) > 2 else 1.0e-5))
+    atol = to_real(kw.get('atol', args[3] if len(args) > 3 else 1.0e-8))
+    d = z3.If(a >= b, a - b, b - a)
+    ab = z3.If(b >= 0, b, -b)
+    return d <= atol + rtol * ab
+
+
 def copy_copy(ip, args, kw):
     v = args[0]
     if isinstance(v, list):
         return list(v)
     if isinstance(v, dict):
-        return dict(v)
+        d = type(v)(v)
+        if getattr(v, 'sym', None) is not None:
+            d.sym = v.sym.copy()
+        return d
     if isinstance(v, Seq):
         return v.copy()
     if isinstance(v, SymMap):
@@ -1508,7 +1570,7 @@ LIB = {
     'numpy.nonzero': np_nonzero, 'numpy.ceil': np_ceil, 'numpy.floor': np_floor, 'numpy.abs': np_abs, 'numpy.absolute': np_abs,
     'numpy.arange': np_arange, 'numpy.array': np_array, 'numpy.round': np_round,
     'numpy.min': np_min, 'numpy.max': np_max, 'numpy.append': np_append,
-    'numpy.allclose': np_allclose, 'copy.copy': copy_copy, 'copy.deepcopy': copy_deepcopy,
+    'numpy.allclose': np_allclose, 'numpy.isclose': np_isclose, 'math.isclose': np_isclose, 'copy.copy': copy_copy, 'copy.deepcopy': copy_deepcopy,
     'copy': copy_copy, 'deepcopy': copy_deepcopy,
     'bisect.bisect': bisect_right, 'bisect.bisect_right': bisect_right,
     'warnings.warn': warnings_warn, 'itertools.product': itertools_product,
